@@ -51,25 +51,28 @@ def main():
     patch = os.path.join(seed, "patch.diff")
     wt = tempfile.mkdtemp(prefix="val-", dir="/tmp")
     os.rmdir(wt)
+    if os.environ.get("SKIPVAL"):
+        results["validation"] = {"skipped": True}
     rc, out = run("git -C /repo worktree add --detach %s HEAD -q" % wt, "/")
     try:
-        rc, out = run("git apply --check %s" % patch, wt)
-        if rc != 0:
-            print("PATCH-DOES-NOT-APPLY", out[-300:]); return 3
-        run("git apply %s" % patch, wt)
-        rc, out = run("go build ./... && go test -vet=off -count=1 ./...", wt)
-        print("suite-with-patch:", "PASS" if rc == 0 else "FAIL\n" + out[-800:])
-        suite_ok = rc == 0
-        cmd = demo_cmd(seed, wt)
-        rc1, out1 = run(cmd, wt, timeout=180) if cmd else (0, "no demo")
-        print("demo-with-patch:", "fails (good)" if rc1 != 0 else "PASSES (bad)")
-        run("git apply -R %s" % patch, wt)
-        rc2, out2 = run(cmd, wt, timeout=180) if cmd else (1, "no demo")
-        print("demo-without-patch:", "passes (good)" if rc2 == 0 else "FAILS (bad)\n" + out2[-600:])
-        valid = suite_ok and rc1 != 0 and rc2 == 0
-        print("seed-valid:", valid)
-        results["validation"] = {"suite_with_patch": "pass" if suite_ok else "fail", "demo_with_patch": "fails" if rc1 != 0 else "passes",
-                                 "demo_without_patch": "passes" if rc2 == 0 else "fails", "demo_cmd": cmd}
+      if not os.environ.get("SKIPVAL"):
+          rc, out = run("git apply --check %s" % patch, wt)
+          if rc != 0:
+              print("PATCH-DOES-NOT-APPLY", out[-300:]); return 3
+          run("git apply %s" % patch, wt)
+          rc, out = run("go build ./... && go test -vet=off -count=1 ./...", wt)
+          print("suite-with-patch:", "PASS" if rc == 0 else "FAIL\n" + out[-800:])
+          suite_ok = rc == 0
+          cmd = demo_cmd(seed, wt)
+          rc1, out1 = run(cmd, wt, timeout=180) if cmd else (0, "no demo")
+          print("demo-with-patch:", "fails (good)" if rc1 != 0 else "PASSES (bad)")
+          run("git apply -R %s" % patch, wt)
+          rc2, out2 = run(cmd, wt, timeout=180) if cmd else (1, "no demo")
+          print("demo-without-patch:", "passes (good)" if rc2 == 0 else "FAILS (bad)\n" + out2[-600:])
+          valid = suite_ok and rc1 != 0 and rc2 == 0
+          print("seed-valid:", valid)
+          results["validation"] = {"suite_with_patch": "pass" if suite_ok else "fail", "demo_with_patch": "fails" if rc1 != 0 else "passes",
+                                   "demo_without_patch": "passes" if rc2 == 0 else "fails", "demo_cmd": cmd}
     finally:
         run("git -C /repo worktree remove --force %s" % wt, "/")
     if not ids:
